@@ -115,10 +115,16 @@ def generate_argparse_parser(
             )
         elif field.storage_type is bool:
             off_arg = "--no-" + name.replace(".", "-").replace("_", "-").lower()
+            # default=None: a switch that was not given must not look like an explicit False to
+            # cmdline_args_override(), which skips None values
             parser.add_argument(
-                arg, dest=name, action="store_true", help=field.short_help
+                arg,
+                dest=name,
+                action="store_true",
+                default=None,
+                help=field.short_help,
             )
-            parser.add_argument(off_arg, dest=name, action="store_false")
+            parser.add_argument(off_arg, dest=name, action="store_false", default=None)
 
     return parser
 
